@@ -465,11 +465,11 @@ def norm_cond(c, labs, depth=0):
     return [(c, labs)]
 
 
-def conditions(N, program, body, target, terms=None, start=0):
+def conditions(N, program, body, target, terms=None, start=0, inline=False):
     """flow.conditions in normal form: necessary (test term, label) pairs for reaching `target`; None if unreachable"""
     out = []
     for sb, labs, t in flow.conditions(program, body, target, terms, start):
-        r = norm_cond(N.norm(t), labs)
+        r = norm_cond(N.inline(t) if inline else N.norm(t), labs)
         if r is None:
             return None
         for t2, l2 in r:
@@ -621,3 +621,12 @@ def abstract(p, adt_path, **fields):
     names_ = [f["name"] for f in a["variants"][0]["fields"]] if a else list(fields)
     variant = a["variants"][0]["name"] if a else adt_path.rsplit("::", 1)[-1]
     return ("agg", adt_path, variant, tuple((f, fields.get(f, ("sym", f))) for f in names_))
+
+
+def under(value, conds):
+    """a value as seen at a program point: selections on tests that the point's necessary conditions already decide
+    are resolved (`if x.is_some() { use(x.map(f)) }` sees Some(f(payload x)))"""
+    for c in conds:
+        t, l = (c[2], c[1]) if len(c) == 3 and isinstance(c[0], int) else (c[0], c[1])
+        value = flow._resolve_nested(value, t, l)
+    return flow.simplify_term(value)
